@@ -46,6 +46,17 @@ Theorem C07_norm_package_agrees : forall fs sfx dirs name level rest f src pd,
 Proof. intros fs sfx dirs name level rest f src pd. exact (norm_agree fs sfx dirs name level rest f src pd). Qed.
 Print Assumptions C07_norm_package_agrees.
 
+(* File names relative to the working directory (Project() defaults to sources ['.']): the climb ends
+   at '' instead of going above the working directory, and the answer is the one for the absolute
+   name of the same file, for every level - in particular the error beyond the top-level package -
+   provided the working directory is not inside a package. Together with
+   C07_norm_package_agrees: relative file names resolve as importlib.util.resolve_name does. *)
+Theorem C07_norm_relative_file_name : forall fs cwd level rest rel,
+  (forall k, exists_ fs (firstn k cwd ++ [init_py]) = false) ->
+  norm_package_rel fs cwd level rest rel = norm_package fs level rest (cwd ++ rel).
+Proof. intros fs cwd level rest rel H. exact (norm_rel_abs fs cwd H level rest rel). Qed.
+Print Assumptions C07_norm_relative_file_name.
+
 (* Submodule proposals, lower bound: every child pkgutil.iter_modules enumerates in the package's
    directory (or in the roots, for the top level) is proposed. Hypotheses: sfx_ordered (no suffix stands
    before a longer suffix ending with it, so supp's first matching suffix is getmodulename's longest
@@ -167,6 +178,25 @@ Example C07_example_norm :
   norm_package (fs_of tree1) 4 (P ["x"]) f = NErr /\
   resolve_name 4 (P ["x"]) (P ["pkg"; "sub"; "deep"]) = NErr /\
   resolve_name 3 [] (P ["pkg"; "sub"; "deep"]) = NOk (P ["pkg"]).
+Proof. vm_compute. repeat split; reflexivity. Qed.
+
+(* the same file named relative to the working directory r1: 'pkg/sub/deep/m.py'; level 4 = depth+1 *)
+Example C07_example_norm_relative :
+  let rel := P ["pkg"; "sub"; "deep"; "m.py"] in
+  norm_package_rel (fs_of tree1) (P ["r1"]) 1 (P ["x"]) rel = NOk (P ["pkg"; "sub"; "deep"; "x"]) /\
+  norm_package_rel (fs_of tree1) (P ["r1"]) 3 (P ["x"]) rel = NOk (P ["pkg"; "x"]) /\
+  norm_package_rel (fs_of tree1) (P ["r1"]) 4 (P ["x"]) rel = NErr /\
+  norm_package_rel (fs_of tree1) (P ["r1"]) 6 [] rel = NErr.
+Proof. vm_compute. repeat split; reflexivity. Qed.
+
+(* a source root that is on sys.path as well (r2 first as source root, then again behind r1): the
+   first occurrence decides, pkg is r2/pkg and pkg.mod is found *)
+Example C07_example_root_also_on_syspath :
+  let dirs := [P ["r2"]; P ["r1"]; P ["r2"]] in
+  dom (fs_of tree1) sfx_fixed dirs (P ["pkg"; "mod"]) = true /\
+  importlib_walk (fs_of tree1) sfx_fixed dirs (P ["pkg"; "mod"]) = RFound (P ["r2"; "pkg"; "mod.py"], true, None) /\
+  get_module (fs_of tree1) sfx_fixed [] dirs (P ["pkg"; "mod"]) = GSource (P ["r2"; "pkg"; "mod.py"]) /\
+  get_module (fs_of tree1) sfx_fixed [] [P ["r1"]; P ["r2"]] (P ["pkg"; "mod"]) = GImportError.
 Proof. vm_compute. repeat split; reflexivity. Qed.
 
 (* children of pkg: importlib binds pkg to r1/pkg; r2/pkg/mod.py is not a child (F24a for
